@@ -1,6 +1,8 @@
 import OxiVerif.Base.Driver
 import OxiVerif.Model.ObjCanon
 import OxiVerif.Model.C09
+import OxiVerif.Model.C09Stream
+import OxiVerif.Spec.C09Stream
 /-!
 Driver for C09.  Requests (see `harness/src/bin/c09.rs`):
   `obj d|o <tree tokens>`  MODEL = `hex(Model.ser tree)|canon(Model.ObjParser.parse …)|next two tokens`
@@ -8,6 +10,11 @@ Driver for C09.  Requests (see `harness/src/bin/c09.rs`):
                            implementation's bytes back to the written value and leaves exactly the
                            trailer (T2), and the library's own answer is that value too (T1)
   `lex <hex>` / `tok <hex>`  correspondence only (ORACLE `na`)
+  `img d|o <w> <hex>`      MODEL = `hex(Model.Stream.serStream imgDict data)|stm answer|reader:hex(data)`
+                           ORACLE = the library's parser and `PdfReader` return the dictionary and
+                           exactly `data` (T1), and the independent §7.3.8.1 reader reads the
+                           implementation's bytes back to the same dictionary and payload (T2)
+  `stm <hex>`              `Model.Stream.parseStream` against `PdfObject::parse` (ORACLE `na`)
 -/
 open OxiVerif OxiVerif.ObjCanon OxiVerif.Model OxiVerif.C09
 open OxiVerif.Spec.Syntax (Obj)
@@ -61,6 +68,51 @@ def handleObj (tree : Obj) (impl : String) : String × String :=
         else (model, "fail:reads-back-different-value:" ++ halves)
   | _ => (model, "fail:unusable-impl-answer")
 
+/-- `PdfObject::parse` with stream objects shown in full (`parse_stream_and_next` of the harness) -/
+def stmAnswer (inp : List Nat) : String :=
+  match Stream.parseStream inp with
+  | .ok (some (kvs, d, rest)) =>
+    "S " ++ canonObj true (.dict kvs) ++ " " ++ hexField d ++ "|" ++ showTokenStream 2 rest
+  | .ok none =>
+    match ObjParser.parse inp with
+    | .ok (o, rest) => "O " ++ canonObj true o ++ "|" ++ showTokenStream 2 rest
+    | .error e => showErr e ++ "|-"
+  | .error (.lex e) => showErr e ++ "|-"
+  | .error .io => "err:io|-"
+
+/-- the dictionary `Image::to_pdf_object` builds for a raw DeviceGray image (without `/Length`,
+    which the writer's `Object::Stream` arm sets) -/
+def imgDict (w h : Nat) : List (List Nat × Obj) :=
+  [(bytesOfString "Type", .name (bytesOfString "XObject")),
+   (bytesOfString "Subtype", .name (bytesOfString "Image")),
+   (bytesOfString "Width", .int w), (bytesOfString "Height", .int h),
+   (bytesOfString "ColorSpace", .name (bytesOfString "DeviceGray")),
+   (bytesOfString "BitsPerComponent", .int 8)]
+
+def endobjTrailer : List Nat := [10, 101, 110, 100, 111, 98, 106, 10]
+
+def handleImg (w : Nat) (data : List Nat) (impl : String) : String × String :=
+  if w == 0 || data.length % w != 0 || data.isEmpty then ("bad-request", "na") else
+  let kvs := imgDict w (data.length / w)
+  let body := Stream.serStream kvs data
+  let model := hexField body ++ "|" ++ stmAnswer (body ++ endobjTrailer) ++ "|reader:" ++ hexField data
+  let wantDict := canonObj false (.dict (Stream.setLength kvs data.length))
+  match impl.splitOn "|" with
+  | [ihex, iparse, inext, irdr] =>
+    match bytesOfHex? ihex with
+    | none => (model, "fail:unusable-impl-answer")
+    | some ibytes =>
+      let t1 := iparse == "S " ++ wantDict ++ " " ++ hexField data && inext == "endobj,eof"
+      let tr := irdr == "reader:" ++ hexField data
+      let t2 := match Spec.Stream.readStream (ibytes ++ endobjTrailer) with
+        | some (k, d, rest) => canonObj false (.dict k) == wantDict && d == data && rest == endobjTrailer
+        | none => false
+      if t1 && tr && t2 then (model, "ok")
+      else (model, "fail:stream-not-read-back:" ++ joinPlus
+        ((if t1 then [] else ["library-parser"]) ++ (if tr then [] else ["library-reader"]) ++
+         (if t2 then [] else ["independent-reader"])))
+  | _ => (model, "fail:unusable-impl-answer")
+
 def handle (req impl : String) : String × String :=
   match req.splitOn " " with
   | "obj" :: cfg :: toks =>
@@ -72,6 +124,15 @@ def handle (req impl : String) : String × String :=
     match bytesOfHex? h with
     | some b => (parseAndNext b, "na")
     | none => ("bad-request", "na")
+  | ["stm", h] =>
+    match bytesOfHex? h with
+    | some b => (stmAnswer b, "na")
+    | none => ("bad-request", "na")
+  | ["img", cfg, w, h] =>
+    if cfg != "d" && cfg != "o" then ("bad-request", "na") else
+    match w.toNat?, bytesOfHex? h with
+    | some wn, some b => handleImg wn b impl
+    | _, _ => ("bad-request", "na")
   | ["tok", h] =>
     match bytesOfHex? h with
     | some b => (showTokenStream 64 b, "na")
